@@ -190,7 +190,8 @@ def _seed_mutants():
                 continue
             seen.add((rep['property'], rep['rule']))
             M.append(dict(id='seed-%s' % sid, prop=rep['property'], rule=rep['rule'], file=None, old='', new='',
-                          patch=os.path.join(sd, sid, 'patch.diff'), expect=rep['key'], config='def'))
+                          patch=os.path.join(sd, sid, 'patch_rebased.diff' if os.path.exists(os.path.join(sd, sid, 'patch_rebased.diff')) else 'patch.diff'),
+                          expect=rep['key'], config='def'))
 
 
 _seed_mutants()
